@@ -183,6 +183,10 @@ Uid = typing.NewType("Uid", int)
 UidAlias = typing.TypeAliasType("UidAlias", Uid)
 UidAlias2 = typing.TypeAliasType("UidAlias2", UidAlias)
 Names = typing.TypeAliasType("Names", list[str])
+from typing import Literal
+Mode = typing.Literal["r", "w"]
+IntList = list[int]
+MaybePt = typing.Optional[Pt]
 class Outer:
     @dataclasses.dataclass
     class Inner:
@@ -290,6 +294,12 @@ def nested_refs(seed):
     names = {  # name -> (plain type, wire input, valid value)
         "Pt": (m.Pt, pt_raw, pt_val), "PtAlias": (m.Pt, pt_raw, pt_val), "PtStr": (m.Pt, pt_raw, pt_val), "PtNew": (m.Pt, pt_raw, pt_val),
         "Uid": (int, "7", 7), "UidAlias": (int, "7", 7), "UidAlias2": (int, "8", 8), "Names": (list[str], [1, "b"], ["1", "b"]),
+        # references whose text is a type EXPRESSION, or the name of a module-level variable holding an anonymous type
+        "list[int]": (list[int], ["1", 2], [1, 2]), "dict[str, Pt]": (dict[str, m.Pt], {"a": pt_raw}, {"a": pt_val}),
+        "Pt | None": (typing.Optional[m.Pt], pt_raw, pt_val), "typing.Literal['r', 'w']": (typing.Literal["r", "w"], "r", "w"),
+        "Literal['r', 'w']": (typing.Literal["r", "w"], "w", "r"), "Mode": (typing.Literal["r", "w"], "r", "r"),
+        "IntList": (list[int], ["3"], [3]), "MaybePt": (typing.Optional[m.Pt], pt_raw, pt_val),
+        "tuple[int, str]": (tuple[int, str], ["1", 2], (1, "2")), "list[Outer.Inner]": (list[m.Outer.Inner], [{"x": "1"}], [m.Outer.Inner(1)]),
     }
     positions = {
         "root": (lambda t: t, lambda x: x),
@@ -313,7 +323,7 @@ def nested_refs(seed):
                 return ["err", enc.err_class(e)]
     out = []
     for name, (plain, raw, val) in names.items():
-        for how, w in (("ForwardRef", ref(name)), ("object", getattr(m, name))):
+        for how, w in (("ForwardRef", ref(name)),) + ((("object", getattr(m, name)),) if hasattr(m, name) else ()):
             for pos, (mk, mkv) in positions.items():
                 label = f"{how} {name} at {pos}"
                 tw, tp = mk(w), mk(plain)
